@@ -133,7 +133,7 @@ impl<'a> G<'a> {
         let groups = self.r.range(1, 3);
         for gi in 0..groups {
             let last = gi + 1 == groups;
-            match self.r.below(7) {
+            match self.r.below(8) {
                 0 | 1 => { let n = self.name(); let (t, v, l) = self.gen(depth - 1, greedy && last); tf.push((n.clone(), t)); vf.push((n, v)); len += l; }
                 2 => {
                     // size-dependent field: len field, optionally something in between, then the sized field
@@ -194,6 +194,25 @@ impl<'a> G<'a> {
                         let b_skips_c = vb as u64 & setb == 0;
                         if b_skips_c { tf.push((cn.clone(), tc.clone())); vf.push((cn, tc)); } else { tf.push((cn.clone(), tc)); vf.push((cn, vc)); len += lc; }
                     }
+                }
+                7 => {
+                    // a skip request and, later, a size request for the SAME field: a flag may skip x, a length
+                    // field sizes x; a skipped x is neither written nor read whatever size is announced
+                    let (an, bn, xn) = (self.name(), self.name(), self.name());
+                    let seta = *self.r.pick(&[1u64, 2, 0x10]);
+                    let va = self.r.byte();
+                    let a_skips = va as u64 & seta == 0;
+                    let fa = OptFn::SkipIf(xn.clone(), seta, 0);
+                    let fb = OptFn::Size(xn.clone(), 1, 0, 0);
+                    let n = self.r.below(6) as usize; let data = self.r.bytes(n);
+                    let le = self.r.chance(1, 2);
+                    let bval = if a_skips { 1 + self.r.below(5) as u16 } else { n as u16 };
+                    tf.push((an.clone(), Sh::Dyn(Box::new(Sh::U8(0)), fa.clone()))); vf.push((an, Sh::Dyn(Box::new(Sh::U8(va)), fa))); len += 1;
+                    tf.push((bn.clone(), Sh::Dyn(Box::new(Sh::U16(le, 0)), fb.clone()))); vf.push((bn, Sh::Dyn(Box::new(Sh::U16(le, bval)), fb))); len += 2;
+                    let tx = Sh::Bytes(vec![]);
+                    if a_skips { tf.push((xn.clone(), tx.clone())); vf.push((xn, tx)); } else { tf.push((xn.clone(), tx)); vf.push((xn, Sh::Bytes(data))); len += n; }
+                    // something after it, so that a desynchronised read shows
+                    let n2 = self.name(); let (t, v, l) = self.int(); tf.push((n2.clone(), t)); vf.push((n2, v)); len += l;
                 }
                 _ => {
                     // size taken from a sub-field of a header component
